@@ -172,7 +172,7 @@ PROPS["C13"] = {
     "assumptions": BASE_ASSUME + ["chunk sources and destinations are exact-size heap blocks; the invariant hook runs after every sf_set_chunk",
                                   "three listed findings partition off their own classes by signature (ids shorter than 4 chars, reserved ids, totals above ~48 KiB); everything else is asserted"],
     "stages": [
-        {"bin": "c13", "quick": {"cases": 2500, "workers": 16, "budget": 200}, "thorough": {"cases": 40000, "workers": 16, "budget": 1500}},
+        {"bin": "c13", "quick": {"cases": 5000, "workers": 16, "budget": 200}, "thorough": {"cases": 40000, "workers": 16, "budget": 1500}},
     ],
 }
 
